@@ -55,6 +55,8 @@ pub struct Probes {
     pub clones_at_first_recv: u32,
     pub sleeps: u32,
     pub yields: u32,
+    pub clock_reads: u32,
+    pub clock_ticks: u32,
 }
 
 thread_local! {
@@ -63,9 +65,88 @@ thread_local! {
         avail_calls: 0, channels: 0, spawns: 0, sends: 0, send_errs: 0, recvs_ok: 0,
         recvs_disc: 0, recv_on_empty: 0, try_recv_empty: 0, timer_fires: 0, timer_polls: 0,
         sender_clones: 0, last_sender_drop_while_recv_waiting: 0, clones_at_first_recv: 0,
-        sleeps: 0, yields: 0 }) };
+        sleeps: 0, yields: 0, clock_reads: 0, clock_ticks: 0 }) };
     /// upper bound on polling rounds of a simulated timer before it must fire
     static TIMER_MAX_POLLS: Cell<u32> = const { Cell::new(3) };
+    /// simulated monotonic clock (ns); it only moves once the code under test has looked at it
+    static SIM_NOW_NS: Cell<u64> = const { Cell::new(1_000_000_000) };
+    static CLOCK_WATCHED: Cell<bool> = const { Cell::new(false) };
+}
+
+/// Let simulated time pass at a scheduling point: usually microseconds, sometimes (1 in 8) a long
+/// stall of 0.1-20 s - a descheduled thread on a loaded machine. Drawn from the schedule's recorded
+/// random source, so it replays. No-op (and no random draw) until the code under test reads the clock.
+fn clock_tick() {
+    if !CLOCK_WATCHED.with(|c| c.get()) || std::thread::panicking() {
+        return;
+    }
+    use shuttle::rand::Rng;
+    let mut rng = shuttle::rand::thread_rng();
+    let r: u64 = rng.gen();
+    let dt = if r % 8 == 0 { 100_000_000 + (r >> 8) % 20_000_000_000 } else { 1_000 + (r >> 8) % 200_000 };
+    SIM_NOW_NS.with(|n| n.set(n.get().saturating_add(dt)));
+    bump(|p| p.clock_ticks += 1);
+}
+fn clock_advance(d: Duration) {
+    SIM_NOW_NS.with(|n| n.set(n.get().saturating_add(d.as_nanos().min(u64::MAX as u128 / 2) as u64)));
+}
+
+/// `std::time::Instant` stand-in on the simulated clock.
+#[derive(Clone, Copy, Debug, PartialEq, Eq, PartialOrd, Ord, Hash)]
+pub struct Instant(u64);
+
+impl Instant {
+    pub fn now() -> Instant {
+        CLOCK_WATCHED.with(|c| c.set(true));
+        bump(|p| p.clock_reads += 1);
+        clock_tick();
+        Instant(SIM_NOW_NS.with(|n| n.get()))
+    }
+    pub fn elapsed(&self) -> Duration {
+        Instant::now().saturating_duration_since(*self)
+    }
+    pub fn duration_since(&self, earlier: Instant) -> Duration {
+        self.saturating_duration_since(earlier)
+    }
+    pub fn saturating_duration_since(&self, earlier: Instant) -> Duration {
+        Duration::from_nanos(self.0.saturating_sub(earlier.0))
+    }
+    pub fn checked_duration_since(&self, earlier: Instant) -> Option<Duration> {
+        self.0.checked_sub(earlier.0).map(Duration::from_nanos)
+    }
+    pub fn checked_add(&self, d: Duration) -> Option<Instant> {
+        u64::try_from(d.as_nanos()).ok().and_then(|n| self.0.checked_add(n)).map(Instant)
+    }
+    pub fn checked_sub(&self, d: Duration) -> Option<Instant> {
+        u64::try_from(d.as_nanos()).ok().and_then(|n| self.0.checked_sub(n)).map(Instant)
+    }
+}
+impl std::ops::Add<Duration> for Instant {
+    type Output = Instant;
+    fn add(self, d: Duration) -> Instant {
+        self.checked_add(d).unwrap_or(Instant(u64::MAX))
+    }
+}
+impl std::ops::AddAssign<Duration> for Instant {
+    fn add_assign(&mut self, d: Duration) {
+        *self = *self + d;
+    }
+}
+impl std::ops::Sub<Duration> for Instant {
+    type Output = Instant;
+    fn sub(self, d: Duration) -> Instant {
+        self.checked_sub(d).unwrap_or(Instant(0))
+    }
+}
+impl std::ops::Sub<Instant> for Instant {
+    type Output = Duration;
+    fn sub(self, o: Instant) -> Duration {
+        self.saturating_duration_since(o)
+    }
+}
+pub mod time {
+    pub use super::Instant;
+    pub use std::time::{Duration, SystemTime, UNIX_EPOCH};
 }
 
 fn bump(f: impl FnOnce(&mut Probes)) {
@@ -82,6 +163,8 @@ pub fn sim_set_available_parallelism(v: Option<usize>) {
 }
 pub fn sim_reset_probes() {
     PROBES.with(|p| p.set(Probes::default()));
+    SIM_NOW_NS.with(|n| n.set(1_000_000_000));
+    CLOCK_WATCHED.with(|c| c.set(false));
 }
 pub fn sim_probes() -> Probes {
     PROBES.with(|p| p.get())
@@ -110,7 +193,9 @@ pub mod thread {
 
     pub fn sleep(d: Duration) {
         bump(|p| p.sleeps += 1);
-        shuttle::thread::sleep(d)
+        super::clock_advance(d);
+        shuttle::thread::sleep(d);
+        super::clock_tick();
     }
     pub fn yield_now() {
         bump(|p| p.yields += 1);
@@ -178,6 +263,7 @@ pub mod thread {
 fn sched_point() {
     if !std::thread::panicking() {
         shuttle::thread::sleep(Duration::from_millis(0));
+        clock_tick();
     }
 }
 
@@ -386,6 +472,7 @@ impl<T> Receiver<T> {
                     let fire = polls > max || shuttle::rand::thread_rng().gen::<bool>();
                     if fire {
                         bump(|p| p.timer_fires += 1);
+                        clock_advance(_timeout);
                         return Err(RecvTimeoutError::Timeout);
                     }
                     shuttle::thread::yield_now();
